@@ -322,7 +322,7 @@ def obligations(tier, seed):
             if tier == "quick" and t not in (0, 1, 2):
                 continue
             obs.append(Ob(id="C05.1-roundtrip[%s,type=%s]" % (dl.PROTO_NAMES[kind], TYPES[t]), body="harness.C05:body_roundtrip", sig="kind: int, t: int, tail: str, name: str, search: bool, oddprefix: bool",
-                          pre=["kind == %d" % kind, "t == %d" % t, "1 <= len(tail) <= %d" % n, ALPH_PRE, "len(name) <= 1", "all(c in 'n <&' for c in name)"] + ([] if kind == 3 else ["oddprefix == False"]), timeout=300 if tier == "quick" else 1500,
+                          pre=["kind == %d" % kind, "t == %d" % t, "1 <= len(tail) <= %d" % n, ALPH_PRE, "len(name) <= 1", "all(c in 'n <&' for c in name)"] + ([] if kind == 3 else ["oddprefix == False"]), timeout=(600 if kind == 4 else 300) if tier == "quick" else 1500,  # Gemini: prompt, redirect and follow = three requests per path
                           desc="%s: the link rendered for a local type-%s entry with a symbolic selector, sent back as that protocol's request, reaches handler selection as exactly the entry's selector "
                                "(one decoding, surrogateescape on both sides, WAP prefix / Gemini query prefix / '?' splitting handled consistently)" % (dl.PROTO_NAMES[kind], TYPES[t]),
                           bounds="selector = '/d/' + tail, |tail| <= %d over {a SPACE %% ? # | \" U+DCFF}; name |n| <= 1; with/without search" % n,
